@@ -59,7 +59,7 @@ def gen_cases(tier, seed):
             f["rel"] = (dirs[j] + "/" if dirs[j] else "") + "f%02d.parquet" % j
         base["files"] = files
         base["layout"] = layout
-        base["route"] = ["list", "dir", "glob", "merge", "merge_pf", "list_root"][int(rng.integers(0, 6))]
+        base["route"] = ["list", "dir", "glob", "merge", "merge_pf", "list_root", "merge_root"][int(rng.integers(0, 7))]
         base["mismatch"] = [None, None, None, None, "renamed", "dtype", "extra"][int(rng.integers(0, 7))] if k >= 2 else None
         cases.append(base)
     # --- footer-length lattice: the footers of files 2..k are fetched together with a tail of int(1.4 * first footer) bytes and
@@ -78,6 +78,18 @@ def gen_cases(tier, seed):
                 files.append({"frame": f, "compression": None, "rel": "f%02d.parquet" % j})
             cases.append({"id": "FL/%d/%s" % (d, route), "frame": fr, "opts": {"has_nulls": True, "row_group_offsets": None}, "files": files,
                           "layout": "flat", "route": route, "mismatch": None, "pad": {"file": 2, "delta": d}})
+    # --- an explicit root above the files' common directory (the top-level partition has a single value)
+    for li, (layout, dirs) in enumerate([("hive2", ["a=1/b=x", "a=1/b=y", "a=1/b=x"]), ("hive", ["a=7", "a=7"]), ("drill", ["eu", "eu", "eu"]),
+                                         ("hive2", ["a=0/b=x", "a=0/b=x"])]):
+        for route in ("merge_root", "list_root", "dir"):
+            k += 1
+            files = []
+            for j, dname in enumerate(dirs):
+                f = {"seed": 1500 + 11 * k + j, "nrows": 5 + j, "rid0": 10 * j, "index": None,
+                     "cols": [{"name": "rid", "kind": "rid"}, {"name": "v0", "kind": "int64", "nulls": "none"}]}
+                files.append({"frame": f, "compression": None, "rel": dname + "/f%02d.parquet" % j})
+            cases.append({"id": "MR/%d/%s/%s" % (li, layout, route), "frame": files[0]["frame"], "opts": {"has_nulls": True, "row_group_offsets": None},
+                          "files": files, "layout": layout, "route": route, "mismatch": None})
     # --- category counts that differ between files (a growing vocabulary: each file's labels are a prefix of the next one's)
     for counts in ([(3, 150), (9, 150), (90, 140), (100, 150), (127, 128), (5, 40, 300), (99, 100, 130)] if tier == "quick" else
                    [(a, b) for a in (1, 2, 3, 9, 10, 90, 99, 100, 127, 128) for b in (128, 129, 140, 150, 256, 257, 1000) if a < b] + [(5, 40, 300), (99, 100, 130)]):
@@ -199,6 +211,11 @@ def run_case(case):
                     pat = root + ("/*.parquet" if layout == "flat" else "/*/*.parquet" if layout in ("hive", "drill") else "/*/*/*.parquet")
                     pf = fastparquet.ParquetFile(pat)
                     order = sorted(range(k), key=lambda j: paths[j])
+                elif route == "merge_root":
+                    pf = W.merge(paths, root=root)
+                    if not os.path.exists(os.path.join(root, "_metadata")):
+                        res["failures"].append({"kind": "merge_with_root_did_not_write_metadata_in_root", **ctx})
+                    counters["merge_with_root"] = counters.get("merge_with_root", 0) + 1
                 elif route == "merge":
                     pf = W.merge(paths)
                     pf = fastparquet.ParquetFile(root) if os.path.exists(os.path.join(root, "_metadata")) else pf
@@ -220,7 +237,7 @@ def run_case(case):
                 res["nontrivial"] = True
                 res["features"] = [layout, k, route]
                 return res
-        if route in ("merge", "merge_pf"):
+        if route in ("merge", "merge_pf", "merge_root"):
             for ev in aud.events:
                 if ev[0] == "open" and fsmon.is_write_mode(ev[2]) and os.path.basename(ev[1]) not in ("_metadata", "_common_metadata"):
                     res["failures"].append({"kind": "merge_wrote_other_file", "file": os.path.relpath(ev[1], root), **ctx})
@@ -259,7 +276,7 @@ def run_case(case):
                 # partition columns from directory names
                 rel = case["files"][j]["rel"]
                 dparts = rel.split("/")[:-1]
-                if route not in ("dir", "list_root"):
+                if route not in ("dir", "list_root", "merge_root"):
                     # root is inferred as the longest common directory prefix: levels shared by every file are (documentedly)
                     # not seen as partitions
                     alld = [f_["rel"].split("/")[:-1] for f_ in case["files"]]
@@ -305,4 +322,4 @@ def run_case(case):
 def required(tier):
     return {"opens_compared": 120, "route:list": 15, "route:dir": 15, "route:glob": 15, "route:merge": 15, "route:merge_pf": 15,
             "footer_path:new": 30, "footer_path:legacy": 30, "mismatch_rejected": 20, "partition_values_checked": 100, "footer_lattice_points": 30,
-            "growing_vocabulary_opens": 20}
+            "growing_vocabulary_opens": 20, "merge_with_root": 10}
